@@ -54,6 +54,7 @@ STANDINS = {
     "C12": [{"mirror": "corpus", "trait": "minmax_chains"}],
     "C13": [{"mirror": "corpus", "trait": "sum_chains"}],
     "C14": [{"mirror": "corpus", "trait": "math"}, {"mirror": "to_sympy"}],
+    "C15": [{"mirror": "corpus", "trait": "inline"}],
     "C16": [{"mirror": "corpus", "trait": "projection"}],
     "C18": [{"mirror": "auto_detect_bounded"}],
     "C19": [{"mirror": "verify_enable_bounded"}, {"mirror": "main_wiring"}, {"mirror": "predicate_list_bounded"}],
@@ -252,7 +253,9 @@ def run(prop, args, seed, t0):
                     rp["model"] = mdl
                     confirmed = True
                     break
-                if res.get("confirmed") is False and confirmed is None:
+                # a bounded stand-in (corpus run, enumeration) does not evaluate this counter-model: when it finds
+                # nothing the model is not refuted, there is just no failing input
+                if res.get("confirmed") is False and confirmed is None and not res.get("bounded"):
                     confirmed = False
             if confirmed is not True and len(rp["native_attempts"]) > 3:
                 rp["native_attempts"] = rp["native_attempts"][:3] + [f"... {len(tries) - 3} more"]
